@@ -41,9 +41,18 @@ def connected_graph(rng, n, kind):
         X, _ = gen.dataset(rng, n, 4, kind="gauss")
         g = umap.UMAP(n_neighbors=min(n - 1, int(rng.integers(4, 12))), n_epochs=0, init="random", random_state=1).fit(X).graph_
         return g.tocsr(), X
-    A = np.triu((rng.random((n, n)) < 0.3) * rng.uniform(0.05, 1.0, (n, n)), 1)
+    if kind == "hub":
+        # very uneven degrees: a few hubs joined to everybody, a sparse light path among the rest
+        A = np.zeros((n, n))
+        for i in range(n - 1):
+            A[i, i + 1] = rng.uniform(0.01, 0.05)
+        for h in range(max(1, n // 25)):
+            A[h, h + 1:] = np.maximum(A[h, h + 1:], rng.uniform(0.5, 1.0, n - h - 1))
+        A = np.triu(A, 1)
+    else:
+        A = np.triu((rng.random((n, n)) < 0.3) * rng.uniform(0.05, 1.0, (n, n)), 1)
     for i in range(n - 1):
-        A[i, i + 1] = rng.uniform(0.2, 1.0)      # a path keeps it connected
+        A[i, i + 1] = max(A[i, i + 1], rng.uniform(0.2, 1.0) if kind != "hub" else A[i, i + 1])      # a path keeps it connected
     A = A + A.T
     if rng.random() < 0.5:
         # self-weights: an arbitrary symmetric positive-weight graph may have a non-zero diagonal
@@ -57,7 +66,7 @@ def run(ctx):
     import umap.spectral as S
     warnings.filterwarnings("ignore")
     rng = ctx.rng
-    ctx.rule = ("connected graphs from the graph stage and arbitrary symmetric positive graphs at overall weight scales 1e-3..30 (n 6..150, dim 1..10): the Laplacian handed "
+    ctx.rule = ("connected graphs from the graph stage and arbitrary symmetric positive graphs at overall weight scales 1e-3..30, hub graphs with very uneven degrees, and the smallest size n = dim + 2 (n 3..150, dim 1..10): the Laplacian handed "
                 "to the eigen-solver (recorded by a harness-side wrapper) vs the Lean model's entries; a-posteriori eigen-check of the real "
                 "output against dense eigh (residual, orthogonality to sqrt(deg), the (j+1)-th smallest eigenvalue), skipping eigengaps "
                 "< 1e-4 and solver fallbacks; the model's argsort/selection vs numpy; disconnected graphs with component profiles "
@@ -69,9 +78,14 @@ def run(ctx):
     for t in range(ncase):
         n = int(rng.integers(6, 150 if ctx.thorough else 60))
         dim = int(rng.integers(1, 11))
+        kind = "umap" if t % 2 == 0 else "random"
+        if t % 6 == 3:
+            kind, n, dim = "hub", int(rng.integers(30, 80)), int(rng.integers(1, 4))
+        if t % 6 == 5:
+            n = dim + 2                      # the smallest graph the property covers
+            kind = "random"
         if n <= dim + 1:
             continue
-        kind = "umap" if t % 2 == 0 else "random"
         G, X = connected_graph(rng, n, kind)
         if scipy.sparse.csgraph.connected_components(G)[0] != 1:
             ctx.skip("generated graph not connected")
